@@ -1,255 +1,295 @@
-"""C17 -- safeguarded scalar root finder: bracket contract and differentiability wiring (structure only).
+"""C17 -- safeguarded scalar root finder: bracket contract and differentiability wiring.
 
-  O1  the initial guess is clipped into the bracket before any other use; NaN seeding on a missing sign change
-      comes next and *precedes* the end-point overrides (so an end point that is itself a root is returned), which
-      precede the loop; each step reads the previous value of the guess;
+Everything is decided on a symbolic *interpretation* of the public entry point (rules/C17_sym.py): find_root is run with an opaque
+user function; `custom_root` and `while_loop` are recorders; the solver that custom_root is handed, the loop body, the loop guard and
+the code after the loop are then called by the analysis on symbolic data.  The loop carry may be any pytree; which leaf plays which
+role (iterate, last step, step before last, residual, slope, end with f<0, end with f>0, flag, counter) is found from the values of
+the initial carry and confirmed by the behaviour of the loop body -- never from a name, a position or a statement shape.
+
+  O1  the iteration starts from the guess clipped into the bracket; NaN without a sign change; an end point that is itself a root
+      wins over both (10 situations of bracket signs / guess position);
   O2  end-point pairing: f(bracket[0]) == 0 selects bracket[0], f(bracket[1]) == 0 selects bracket[1];
   O3  orientation and bracket maintenance use one sign convention (the `low' end is where f < 0);
-  O4  the bisection step is the midpoint of the current bracket; the Newton step is x - f/f';
-      Newton is rejected when it leaves the bracket (product test on both ends);
-  O5  the while-loop carry has one order in the initial tuple, both unpackings, the body's return and the result;
-  O6  the result is masked by `converged` (NaN otherwise);
-  O7  implicit differentiation: find_root hands the user function, the clipped solver and the tangent solve
-      y / g(1) to jax.lax.custom_root.
+  O4  the bisection step is the midpoint of the current bracket; the Newton step is x - f/f'; Newton is rejected when it leaves
+      the bracket or converges too slowly (judged by the step *before last*); x_tol / r_tol / max_iters given to get_settings
+      reach the step test, the residual test and the loop guard;
+  O5  the carry keeps its meaning across an iteration (residual and slope at the new iterate, counter + 1, last step shifted to
+      step-before-last) and the loop guard is `not converged and counter < max_iters`;
+  O6  the convergence flag is stagnation | |step| < x_tol | |f| < r_tol, and the result is masked by it (NaN otherwise);
+  O7  implicit differentiation: find_root hands the user function, the guess, a solver that depends only on what custom_root passes
+      in, and the tangent solve y / g(1) (both signs of the slope) to jax.lax.custom_root with has_aux.
 Not decided: that the returned value meets the tolerance and lies in the bracket for every function (trajectory).
 """
 from __future__ import annotations
 
-import ast
+import itertools
+from fractions import Fraction as F
 
-from optilint.cfg import cfg_of
-from optilint.model import dotted, FuncVal
 from optilint.core import Incomplete
-from optilint.expr import Algebra, NotPolynomial
-from .common import src, same, calls_in, const_value, expand
+from optilint.tensoreval import Dual, PyFunc, Record, _A
+from .C17_sym import RootModel, flatten, is_nan, const_of, EVAL_ERRORS
 
 LEVEL = "other"
 RULE_TEXT = ("obligations = (situation of the bracket / guess x value of the initial carry) + (situation of one loop step x value of the returned carry) + "
              "(use of the loop result) + custom_root wiring + settings wiring")
-EXPLANATION = ("rtsafe_ is interpreted symbolically (opaque user function f@x / df@x, comparisons decided at one rational sample per situation): the initial carry in "
-               "10 situations of bracket signs and guess position, one loop step in 9 situations (Newton admissible / leaves the bracket / too slow, decreasing "
-               "function, tolerances, stagnation) with exact comparison of the new iterate, step, bracket, residual slot, counter and flag, the loop guard, and the "
-               "masking of the result by the flag; find_root's custom_root wiring; named-field wiring of get_settings. That the iteration reaches the tolerance for "
+EXPLANATION = ("find_root is interpreted symbolically (opaque user function f@x / df@x, comparisons decided at one rational sample per situation; custom_root "
+               "and while_loop are recorders, the carry is any pytree, roles of its leaves are derived from values and behaviour): the initial carry in "
+               "10 situations of bracket signs and guess position, one loop step in 11 situations (Newton admissible / leaves the bracket / too slow, decreasing "
+               "function, each tolerance alone, stagnation) with exact comparison of the new iterate, step, bracket, residual and slope slots, counter and flag, "
+               "the loop guard, and the masking of the result by the flag; what find_root hands to custom_root (solver called on fresh arguments, tangent solve "
+               "for both signs of the slope); get_settings' parameters reaching the tests they are named after. That the iteration reaches the tolerance for "
                "every function is trajectory dependent and not decided.")
 
 SR = "optimism.ScalarRootFind"
+A = lambda n: Dual(_A.atom(n))
+ROLES = ("root", "dx", "dxOld", "F", "DF", "xl", "xh", "conv", "iter")
+ROLE_TEXT = {"root": "iterate", "dx": "last step", "dxOld": "step before last", "F": "residual", "DF": "slope", "xl": "bracket end with f<0",
+             "xh": "bracket end with f>0", "conv": "convergence flag", "iter": "iteration counter"}
 
 
 def run(ctx):
     ctx.need_module(SR)
-    rt = ctx.need(f"{SR}:rtsafe_")
-    ctx.guard(semantic, ctx, rt)
-    ctx.guard(o7, ctx)
-    from .common import settings_wiring
-    ctx.guard(settings_wiring, ctx, "O4/T5-settings-wiring", SR)
+    fr = ctx.need(f"{SR}:find_root")
+    ctx.need(f"{SR}:get_settings")
+    ctx.guard(analyse, ctx, fr)
     ctx.trust("jax.lax.custom_root(f, x0, solve, tangent_solve) differentiates the root implicitly with tangent_solve(g, y) = y / g(1) for scalar g")
-
-
-# ------------------------------------------------------------------ semantic model of rtsafe_ (symbolic interpretation, region sampling)
-
-class _Model:
-    """rtsafe_ interpreted by optilint.tensoreval on symbolic data.  The user function is opaque: f(x) is the atom `f@<x>`, its derivative
-    `df@<x>`.  Comparisons are decided at a rational sample of the region under study, values stay symbolic.  jax.lax.while_loop is replaced
-    either by the identity (to look at the initial carry) or by a tuple of fresh symbols (to look at what is done with the result)."""
-
-    def __init__(self, ctx):
-        from optilint.tensoreval import Interp, Dual, Arr, PyFunc, _A
-        self.ctx = ctx
-        self.mod = ctx.need_module(SR)
-        self.T = (Interp, Dual, Arr, PyFunc, _A)
-
-    def interp(self, env):
-        Interp, Dual, Arr, PyFunc, _A = self.T
-        from optilint.expr import simplify
-        from fractions import Fraction as F
-        I = Interp(self.ctx.repo)
-
-        def val(d):
-            e = dict(env)
-            for a in d.atoms():
-                if a not in e:
-                    if a.startswith("f@"):
-                        e[a] = env.get("f@*", F(1, 3))
-                    elif a.startswith("df@"):
-                        e[a] = env.get("df@*", F(2))
-                    else:
-                        return None
-            try:
-                return _A.eval(d, e)
-            except Exception:
-                return None
-        I.policy = val
-
-        def key(x):
-            from optilint.tensoreval import Ext
-            if isinstance(x, Ext):
-                return "nan"
-            return repr(simplify(I.num(x).a))
-        f = PyFunc("f", lambda it, a, k: Dual(_A.atom("f@" + key(a[0]))), grad=lambda it, a, k: Dual(_A.atom("df@" + key(a[0]))))
-        return I, f
-
-    def run(self, env, loop_mode, x0=None):
-        Interp, Dual, Arr, PyFunc, _A = self.T
-        I, f = self.interp(env)
-        rec = {}
-
-        def wl(it, args, kw):
-            rec["cond"], rec["body"], rec["init"] = args
-            if loop_mode == "init":
-                return args[2]
-            return tuple(Dual(_A.atom(f"L{i}")) for i in range(len(args[2])))
-        I.ext_special["jax.lax.while_loop"] = wl
-        st = I.call(I.module_value(self.mod, "Settings"), [50, Dual(_A.atom("xtol")), Dual(_A.atom("rtol"))], {})
-        br = Arr([Dual(_A.atom("b0")), Dual(_A.atom("b1"))], (2,))
-        out = I.call(I.module_value(self.mod, "rtsafe_"), [f, Dual(_A.atom("x0")) if x0 is None else x0, br, st], {})
-        return out, rec, I
-
-
-def _isnan(v):
-    from optilint.tensoreval import Ext, Dual
-    return (isinstance(v, Ext) and v.name.split(".")[-1].lower() == "nan") or (isinstance(v, Dual) and "@nan" in v.a.atoms())
+    ctx.trust("jax.lax.while_loop(cond, body, init) iterates body on a pytree carry while cond holds; lax.cond / lax.switch / np.where select by the predicate")
 
 
 def _eqv(I, a, b):
-    from optilint.tensoreval import _A
     try:
         return _A.equal(I.num(a).a, I.num(b).a)
     except Exception:
         return False
 
 
-def semantic(ctx, rt):
-    from fractions import Fraction as F
-    from optilint.tensoreval import Dual, Arr, EvalError, Raised, _A, Record
-    M = _Model(ctx)
-    base = {"b0": F(0), "b1": F(2), "x0": F(1), "f@b0": F(-1), "f@b1": F(1), "xtol": F(1, 10 ** 9), "rtol": F(1, 10 ** 9)}
-    A = lambda n: Dual(_A.atom(n))
-    # ---- roles of the carry slots, read off the initial carry in the standard situation (sign change, guess inside, f(b0) < 0)
-    try:
-        out, rec, I = M.run(base, "init")
-    except (EvalError, Raised, KeyError, TypeError, AttributeError, IndexError) as ex:
-        raise Incomplete(f"rtsafe_ cannot be interpreted: {ex}")
-    init = list(rec.get("init", ()))
-    role = {}
-    for k, v in enumerate(init):
-        if isinstance(v, bool):
-            role.setdefault("conv", k)
-        elif isinstance(v, int) and v == 0:
-            role.setdefault("iter", k)
-        elif _eqv(I, v, A("x0")):
-            role.setdefault("root", k)
-        elif _eqv(I, v, A("f@x0")):
-            role.setdefault("F", k)
-        elif _eqv(I, v, A("df@x0")):
-            role.setdefault("DF", k)
-        elif _eqv(I, v, A("b0")):
-            role.setdefault("xl", k)
-        elif _eqv(I, v, A("b1")):
-            role.setdefault("xh", k)
-        elif _eqv(I, v, A("b1") - A("b0")):
-            role.setdefault("dx" if "dx" not in role else "dxOld", k)
-    need = ("root", "F", "DF", "xl", "xh", "conv", "iter", "dx", "dxOld")
-    ctx.decide("O5/T5-loop-carry-slots", all(r in role for r in need) and len(init) == len(need), rt, None, construct="carry-initial-and-result",
-               detail=f"initial carry = (guess, |b1-b0| twice, f and f' at the guess, oriented bracket, False, 0): roles {role}",
-               bad_detail=f"the initial while-loop carry {[repr(v)[:24] for v in init]} is not (guess, two copies of the bracket length, f(guess), f'(guess), "
-                          f"end with f<0, end with f>0, not-converged, 0): roles found {role}")
-    if not all(r in role for r in need):
-        return
-    # dx vs dxOld are told apart by the body (below); slot order of the two equal initial values is arbitrary here
-    # ---- O6 / result: what is returned from the loop result
-    try:
-        env = dict(base)
-        env.update({f"L{k}": F(k + 2) for k in range(len(init))})
-        out, _, I2 = M.run(env, "sym")
-        root_out, info = out[0], out[1]
-        ok_x = _eqv(I2, root_out, A(f"L{role['root']}"))
-        conv_field = info.get("converged") if isinstance(info, Record) else None
-        ok_c = conv_field is not None and _eqv(I2, conv_field, A(f"L{role['conv']}"))
-        env[f"L{role['conv']}"] = F(0)
-        out0, _, _ = M.run(env, "sym")
-        ok_m = _isnan(out0[0])
-        ctx.decide("O6/T1-result-masked", ok_x and ok_c and ok_m, rt, None, construct="nan-unless-converged",
-                   detail="returns the loop's iterate when the loop's flag is set, NaN otherwise; SolutionInfo.converged is that flag",
-                   bad_detail=f"after the loop: returned root is the iterate slot when converged: {ok_x}; SolutionInfo.converged is the flag slot: {ok_c}; "
-                              f"NaN when the flag is not set: {ok_m} (an unconverged iterate could be returned as a root)")
-    except (EvalError, Raised, KeyError, TypeError, AttributeError, IndexError) as ex:
-        ctx.undecided("O6/T1-result-masked", rt, None, construct="nan-unless-converged", detail=f"cannot interpret the code after the loop: {ex}")
-    # ---- O1/O2/O3: preparation of the guess and orientation, by region
-    regions = [
-        # label, overrides, expected root, expected (xl, xh), expected converged
-        ("sign-change,f(b0)<0,guess-inside", {}, "x0", ("b0", "b1"), False),
-        ("sign-change,f(b0)>0,guess-inside", {"f@b0": F(1), "f@b1": F(-1)}, "x0", ("b1", "b0"), False),
-        ("guess-below-bracket", {"x0": F(-3)}, "b0", ("b0", "b1"), False),
-        ("guess-above-bracket", {"x0": F(7)}, "b1", ("b0", "b1"), False),
-        ("no-sign-change,both-positive", {"f@b0": F(2), "f@b1": F(1)}, "nan", None, False),
-        ("no-sign-change,both-negative", {"f@b0": F(-2), "f@b1": F(-1)}, "nan", None, False),
-        ("left-end-is-root", {"f@b0": F(0), "f@b1": F(1)}, "b0", None, True),
-        ("left-end-is-root,other-end-negative", {"f@b0": F(0), "f@b1": F(-1)}, "b0", None, True),
-        ("right-end-is-root", {"f@b0": F(-1), "f@b1": F(0)}, "b1", None, True),
-        ("right-end-is-root,guess-outside", {"f@b0": F(1), "f@b1": F(0), "x0": F(9)}, "b1", None, True),
-    ]
-    for lab, ov, eroot, ebr, econv in regions:
-        env = dict(base)
-        env.update(ov)
+def _show(v, n=60):
+    return repr(v)[:n]
+
+
+BASE = {"b0": F(0), "b1": F(2), "x0": F(1), "f@b0": F(-1), "f@b1": F(1), "xtol": F(1, 10 ** 9), "rtol": F(1, 10 ** 9)}
+
+REGIONS = [
+    # label, overrides of the sample, expected start of the iteration, expected (end with f<0, end with f>0), expected flag
+    ("sign-change,f(b0)<0,guess-inside", {}, "x0", ("b0", "b1"), False),
+    ("sign-change,f(b0)>0,guess-inside", {"f@b0": F(1), "f@b1": F(-1)}, "x0", ("b1", "b0"), False),
+    ("guess-below-bracket", {"x0": F(-3)}, "b0", ("b0", "b1"), False),
+    ("guess-above-bracket", {"x0": F(7)}, "b1", ("b0", "b1"), False),
+    ("no-sign-change,both-positive", {"f@b0": F(2), "f@b1": F(1)}, "nan", None, False),
+    ("no-sign-change,both-negative", {"f@b0": F(-2), "f@b1": F(-1)}, "nan", None, False),
+    ("left-end-is-root", {"f@b0": F(0), "f@b1": F(1)}, "b0", None, True),
+    ("left-end-is-root,other-end-negative", {"f@b0": F(0), "f@b1": F(-1)}, "b0", None, True),
+    ("right-end-is-root", {"f@b0": F(-1), "f@b1": F(0)}, "b1", None, True),
+    ("right-end-is-root,guess-outside", {"f@b0": F(1), "f@b1": F(0), "x0": F(9)}, "b1", None, True),
+]
+
+_STD = dict(Cx=F(1), Cd=F(1, 10), Co=F(1), CF=F(1, 10), CD=F(1), Cl=F(0), Ch=F(2), Ci=F(3))
+_T = lambda x, r: {"xtol": x, "rtol": r}
+SAMPLES = [
+    # label, numeric carry (the last step Cd and the step before last Co differ so that reading the wrong one changes the decision),
+    # f at the new point, tolerances
+    ("newton-accepted,f(new)<0", _STD, F(-1, 7), {}),
+    ("newton-accepted,f(new)>0", _STD, F(1, 7), {}),
+    ("newton-leaves-bracket", dict(_STD, CF=F(5), Co=F(20)), F(1, 7), {}),      # not `too slow': only the bracket test rejects Newton
+    ("newton-too-slow", dict(_STD, Cd=F(1), Co=F(1, 10)), F(-1, 7), {}),
+    ("decreasing-function,bisection", dict(_STD, CF=F(5), CD=F(-1), Cl=F(2), Ch=F(0), Ci=F(0)), F(1, 7), {}),
+    ("residual-below-tolerance", _STD, F(1, 10 ** 7), _T(F(1, 10 ** 12), F(1, 10 ** 5))),
+    ("residual-below-x_tol-only", _STD, F(1, 10 ** 7), _T(F(1, 10 ** 5), F(1, 10 ** 12))),
+    ("step-below-tolerance", dict(_STD, CF=F(1, 10 ** 7)), F(1, 7), _T(F(1, 10 ** 5), F(1, 10 ** 12))),
+    ("step-below-r_tol-only", dict(_STD, CF=F(1, 10 ** 7)), F(1, 7), _T(F(1, 10 ** 12), F(1, 10 ** 5))),
+    ("bisection-stagnates,zero-tolerances", dict(_STD, CF=F(5), Cl=F(1), Ch=F(1)), F(1, 7), _T(F(0), F(0))),
+    ("newton-stagnates,zero-tolerances", dict(_STD, CF=F(0)), F(1, 7), _T(F(0), F(0))),
+]
+_NAMES = {"root": "Cx", "dx": "Cd", "dxOld": "Co", "F": "CF", "DF": "CD", "xl": "Cl", "xh": "Ch", "iter": "Ci"}
+
+
+class _Analysis:
+    """All symbolic executions, cached; `evaluate(role)` judges one reading of the carry (role -> leaf index)."""
+
+    def __init__(self, ctx, M):
+        self.ctx, self.M = ctx, M
+        self.cache = {}
+
+    def solver_run(self, tag, env, loop_optional=False):
+        if tag not in self.cache:
+            r = self.M.run(env, "init")
+            if len(r.loops) != 1 and not (loop_optional and not r.loops):
+                raise Incomplete(f"the solver reaches jax.lax.while_loop {len(r.loops)} times in the situation [{tag}]: the iteration is not recognised")
+            self.cache[tag] = r
+        return self.cache[tag]
+
+    # ---------------------------------------------------------------- readings of the carry
+    def readings(self, base_run):
+        I = base_run.I
+        leaves, paths, _ = flatten(base_run.loop[2])
+        self.paths = paths
+        spec = {"root": A("x0"), "F": A("f@x0"), "DF": A("df@x0"), "xl": A("b0"), "xh": A("b1"), "dx": A("b1") - A("b0"), "dxOld": A("b1") - A("b0")}
+        cand = {}
+        for r in ROLES:
+            if r == "conv":
+                cand[r] = [k for k, v in enumerate(leaves) if v is False]
+            elif r == "iter":
+                cand[r] = [k for k, v in enumerate(leaves) if const_of(v) == 0]
+            else:
+                cand[r] = [k for k, v in enumerate(leaves) if not isinstance(v, bool) and _eqv(I, v, spec[r])]
+        missing = [r for r in ROLES if not cand[r]]
+        if missing:
+            # the initial value does not identify these roles: every leaf of the right kind is tried (leaves that no other role claims first),
+            # the loop body decides (see analyse)
+            claimed = {k for r in ROLES for k in cand[r]}
+            behaviour = self.probe(leaves)
+            for r in missing:
+                fit = [k for k, v in enumerate(leaves) if isinstance(v, bool) == (r == "conv")]
+                if behaviour.get(r):
+                    fit = [k for k in fit if k in behaviour[r]]
+                cand[r] = [k for k in fit if k not in claimed] + [k for k in fit if k in claimed]
+        out = []
+        self.truncated = False
+        for n, combo in enumerate(itertools.product(*[cand[r] for r in ROLES])):
+            if n >= 20000 or len(out) >= 24:
+                self.truncated = True       # not every reading is looked at: a failure of all those tried proves nothing
+                break
+            if len(set(combo)) == len(combo):
+                out.append(dict(zip(ROLES, combo)))
+        return out, missing, cand, leaves
+
+    def probe(self, leaves):
+        """Roles by def-use: one call of the loop body on a carry of pairwise different symbols K0, K1, ...  The leaf that comes back as
+        f(.) is the residual, as f'(.) the slope, as the point where f was evaluated the iterate, as itself + 1 the counter, as a plain
+        copy of another leaf the step before last (and that other leaf the last step), as itself or the new iterate a bracket end."""
         try:
-            _, rec, I3 = M.run(env, "init")
-            ini = rec["init"]
-        except (EvalError, Raised, KeyError, TypeError, AttributeError, IndexError) as ex:
-            ctx.undecided("O1-O2/T2-guess-preparation-order", rt, None, construct=f"initial-iterate[{lab}]", detail=str(ex))
-            continue
-        r0 = ini[role["root"]]
-        okr = _isnan(r0) if eroot == "nan" else _eqv(I3, r0, A(eroot))
-        okc = ini[role["conv"]] is econv
-        rule = "O1-O2/T5-endpoint-pairing" if "is-root" in lab else "O1-O2/T2-guess-preparation-order"
-        what = {"x0": "the guess", "b0": "bracket[0]", "b1": "bracket[1]", "nan": "NaN"}[eroot]
-        ctx.decide(rule, okr and okc, rt, None, construct=f"initial-iterate[{lab}]",
-                   detail=f"iteration starts from {what}, converged = {econv}",
-                   bad_detail=f"in the situation [{lab}] the iteration starts from `{repr(r0)[:50]}` with converged = {ini[role['conv']]}; the contract requires {what} "
-                              f"with converged = {econv} (clip the guess into the bracket, NaN without a sign change, an end point that is a root wins)")
-        if ebr is not None:
-            okb = _eqv(I3, ini[role["xl"]], A(ebr[0])) and _eqv(I3, ini[role["xh"]], A(ebr[1]))
-            ctx.decide("O3/T6-sign-convention", okb, rt, None, construct=f"orientation[{lab}]", detail=f"(end with f<0, end with f>0) = ({ebr[0]}, {ebr[1]})",
-                       bad_detail=f"in the situation [{lab}] the bracket is oriented as ({repr(ini[role['xl']])[:20]}, {repr(ini[role['xh']])[:20]}); the first must be the end where f < 0")
-    # ---- O3/O4/O5: one iteration of the loop body on a symbolic carry
-    body = rec.get("body")
-    names = {"root": "Cx", "dx": "Cd", "dxOld": "Co", "F": "CF", "DF": "CD", "xl": "Cl", "xh": "Ch", "iter": "Ci"}
-    samples = [
-        # label, numeric carry, f at the new point, tolerances
-        ("newton-accepted,f(new)<0", dict(Cx=F(1), Cd=F(1), Co=F(1), CF=F(1, 10), CD=F(1), Cl=F(0), Ch=F(2), Ci=F(3)), F(-1, 7), {}),
-        ("newton-accepted,f(new)>0", dict(Cx=F(1), Cd=F(1), Co=F(1), CF=F(1, 10), CD=F(1), Cl=F(0), Ch=F(2), Ci=F(3)), F(1, 7), {}),
-        ("newton-leaves-bracket", dict(Cx=F(1), Cd=F(1), Co=F(1), CF=F(5), CD=F(1), Cl=F(0), Ch=F(2), Ci=F(3)), F(1, 7), {}),
-        ("newton-too-slow", dict(Cx=F(1), Cd=F(1, 10), Co=F(1, 10), CF=F(1, 10), CD=F(1), Cl=F(0), Ch=F(2), Ci=F(3)), F(-1, 7), {}),
-        ("decreasing-function,bisection", dict(Cx=F(1), Cd=F(1), Co=F(1), CF=F(5), CD=F(-1), Cl=F(2), Ch=F(0), Ci=F(0)), F(1, 7), {}),
-        ("residual-below-tolerance", dict(Cx=F(1), Cd=F(1), Co=F(1), CF=F(1, 10), CD=F(1), Cl=F(0), Ch=F(2), Ci=F(3)), F(1, 10 ** 12), {}),
-        ("step-below-tolerance", dict(Cx=F(1), Cd=F(1), Co=F(1), CF=F(1, 10 ** 12), CD=F(1), Cl=F(0), Ch=F(2), Ci=F(3)), F(1, 7), {}),
-        ("bisection-stagnates,zero-tolerances", dict(Cx=F(1), Cd=F(1), Co=F(1), CF=F(5), CD=F(1), Cl=F(1), Ch=F(1), Ci=F(3)), F(1, 7), {"xtol": F(0), "rtol": F(0)}),
-        ("newton-stagnates,zero-tolerances", dict(Cx=F(1), Cd=F(1), Co=F(1), CF=F(0), CD=F(1), Cl=F(0), Ch=F(2), Ci=F(3)), F(1, 7), {"xtol": F(0), "rtol": F(0)}),
-    ]
-    if body is None:
-        ctx.undecided("O4/T7-steps", rt, None, construct="loop-body", detail="loop body not captured")
-        return
-    for lab, num, fnew, tols in samples:
-        for conv_in in (False,):
-            env = dict(base)
+            env = dict(BASE)
+            env.update({f"K{k}": F(k + 2) for k in range(len(leaves))})
+            r = self.solver_run("probe", env)
+            I = r.I
+            ls, _, rb = flatten(r.loop[2])
+            carry = [(False if isinstance(v, bool) else A(f"K{k}")) for k, v in enumerate(ls)]
+            out, _, _ = flatten(I.call(r.loop[1], [rb(carry)], {}))
+            if len(out) != len(leaves):
+                return {}
+        except EVAL_ERRORS + (Incomplete,):
+            return {}
+        M = self.M
+        num = [k for k, v in enumerate(out) if not isinstance(v, bool)]
+        beh = {"F": [k for k in num if M.applied_at(I, out[k], "f") is not None], "DF": [k for k in num if M.applied_at(I, out[k], "df") is not None],
+               "iter": [k for k in num if _eqv(I, out[k], A(f"K{k}") + Dual(1))]}
+        at = [M.applied_at(I, out[k], "f") for k in beh["F"]]
+        beh["root"] = [k for k in num if any(_eqv(I, out[k], a) for a in at)]
+        copies = {k: j for k in num for j in num if j != k and _eqv(I, out[k], A(f"K{j}"))}
+        beh["dxOld"], beh["dx"] = sorted(copies), sorted(set(copies.values()))
+        ends = [k for k in num if k not in beh["root"] and (_eqv(I, out[k], A(f"K{k}")) or any(_eqv(I, out[k], out[j]) for j in beh["root"]))]
+        beh["xl"] = beh["xh"] = ends
+        return beh
+
+    # ---------------------------------------------------------------- one reading
+    def evaluate(self, role, base_run):
+        obs = []          # (rule, ok, construct, detail, bad_detail, kind)
+        add = lambda rule, ok, construct, detail, bad=None, kind="": obs.append((rule, ok, construct, detail, bad or detail, kind))
+        M = self.M
+        nleaves = len(self.paths)
+        where = lambda r: f"{ROLE_TEXT[r]} = carry{self.paths[role[r]]}"
+        # ---- O5: initial values of the carry in the standard situation
+        I = base_run.I
+        leaves0, _, rebuild0 = flatten(base_run.loop[2])
+        spec = {"root": A("x0"), "F": A("f@x0"), "DF": A("df@x0"), "xl": A("b0"), "xh": A("b1"), "dx": A("b1") - A("b0"), "dxOld": A("b1") - A("b0")}
+        wrong = [r for r in spec if not _eqv(I, leaves0[role[r]], spec[r])]
+        if leaves0[role["conv"]] is not False:
+            wrong.append("conv")
+        if const_of(leaves0[role["iter"]]) != 0:
+            wrong.append("iter")
+        add("O5/T5-loop-carry-slots", not wrong, "carry-initial-and-result",
+            "initial carry holds the guess, |b1-b0| twice, f and f' at the guess, the oriented bracket, False, 0: " + ", ".join(where(r) for r in ROLES),
+            "with a sign change, the guess inside and f(bracket[0]) < 0 the loop starts from " +
+            "; ".join(f"{where(r)} = `{_show(leaves0[role[r]], 30)}`" for r in wrong) +
+            " -- expected (guess, |b1-b0| for both steps, f(guess), f'(guess), end with f<0, end with f>0, not converged, 0)", kind="init")
+        # ---- O6: what is returned from the loop result
+        try:
+            res = {}
+            for flag in (True, False):
+                env = dict(BASE)
+                env.update({f"L{k}": F(k + 2) for k in range(nleaves)})
+
+                def loop_result(init, flag=flag):
+                    ls, _, rb = flatten(init)
+                    new = [(False if isinstance(v, bool) else A(f"L{k}")) for k, v in enumerate(ls)]
+                    new[role["conv"]] = flag
+                    return rb(new)
+                r = M.run(env, "result", loop_result=loop_result)
+                x, info = self.split_result(r.out)
+                cf = info.get("converged") if isinstance(info, Record) and "converged" in info.fields else None
+                res[flag] = (r.I, x, cf)
+            I2, xT, cT = res[True]
+            _, xF, cF = res[False]
+            ok_x = _eqv(I2, xT, A(f"L{role['root']}"))
+            ok_m = is_nan(xF)
+            ok_c = None if (cT is None or cF is None) else (cT is True and cF is False)
+            ok = None if (ok_c is None and ok_x and ok_m) else bool(ok_x and ok_m and ok_c)
+            add("O6/T1-result-masked", ok, "nan-unless-converged",
+                "returns the loop's iterate when the loop's flag is set, NaN otherwise; SolutionInfo.converged is that flag",
+                f"after the loop: the returned root is `{_show(xT, 40)}` when the flag is set (the loop's iterate: {ok_x}) and `{_show(xF, 40)}` when it is not "
+                f"(NaN: {ok_m}); SolutionInfo.converged follows the flag: {ok_c} (an unconverged iterate could be returned as a root)", kind="result")
+        except EVAL_ERRORS as ex:
+            add("O6/T1-result-masked", None, "nan-unless-converged", f"cannot interpret the code after the loop: {ex}", kind="result")
+        # ---- O1/O2/O3: preparation of the guess and orientation, by situation
+        for lab, ov, eroot, ebr, econv in REGIONS:
+            rule = "O1-O2/T5-endpoint-pairing" if "is-root" in lab else "O1-O2/T2-guess-preparation-order"
+            env = dict(BASE)
+            env.update(ov)
+            try:
+                r = self.solver_run("region:" + lab, env, loop_optional=True)
+                if r.loop is None:
+                    # the solver answers this situation without iterating (e.g. an end point is a root): what it returns is judged instead
+                    x_, info_ = self.split_result(r.out)
+                    if not (isinstance(info_, Record) and "converged" in info_.fields):
+                        raise Incomplete("the solver returns without iterating and without a SolutionInfo")
+                    ini = [None] * nleaves
+                    ini[role["root"]], ini[role["conv"]] = x_, info_.get("converged")
+                    if ebr is not None:
+                        raise Incomplete("the solver does not iterate although the root is bracketed by a sign change")
+                else:
+                    ini, _, _ = flatten(r.loop[2])
+                if len(ini) != nleaves:
+                    raise Incomplete("the carry changes its structure between situations")
+            except EVAL_ERRORS + (Incomplete,) as ex:
+                add(rule, None, f"initial-iterate[{lab}]", str(ex), kind="region")
+                continue
+            I3 = r.I
+            r0, c0 = ini[role["root"]], ini[role["conv"]]
+            okr = is_nan(r0) if eroot == "nan" else (not is_nan(r0) and _eqv(I3, r0, A(eroot)))
+            okc = c0 is econv
+            what = {"x0": "the guess", "b0": "bracket[0]", "b1": "bracket[1]", "nan": "NaN"}[eroot]
+            add(rule, (okr and okc) if isinstance(c0, bool) else None, f"initial-iterate[{lab}]", f"iteration starts from {what}, converged = {econv}",
+                f"in the situation [{lab}] the iteration starts from `{_show(r0, 50)}` with converged = {c0}; the contract requires {what} "
+                f"with converged = {econv} (clip the guess into the bracket, NaN without a sign change, an end point that is a root wins)", kind="region")
+            if ebr is not None:
+                okb = _eqv(I3, ini[role["xl"]], A(ebr[0])) and _eqv(I3, ini[role["xh"]], A(ebr[1]))
+                add("O3/T6-sign-convention", okb, f"orientation[{lab}]", f"(end with f<0, end with f>0) = ({ebr[0]}, {ebr[1]})",
+                    f"in the situation [{lab}] the bracket is oriented as ({_show(ini[role['xl']], 20)}, {_show(ini[role['xh']], 20)}); the first must be the end where f < 0",
+                    kind="region")
+        # ---- O3/O4/O5/O6: one iteration of the loop body on a symbolic carry
+        flags = {}
+        for lab, num, fnew, tols in SAMPLES:
+            env = dict(BASE)
             env.update(num)
             env.update(tols)
             env["f@*"] = fnew
+            env.update({f"E{k}": F(1) for k in range(nleaves)})
             try:
-                I4, f4 = M.interp(env)
-                # the body is a closure of rtsafe_: rebuild it in an interpreter that decides comparisons at this sample
-                _, rec4, I4 = M.run(env, "init")
-                body4 = rec4["body"]
-                I4.policy = M.interp(env)[0].policy
-                carry = [None] * len(init)
-                for r_, nm in names.items():
+                r = self.solver_run("step:" + lab, env)
+                I4 = r.I
+                ls, _, rb = flatten(r.loop[2])
+                carry = [(False if isinstance(v, bool) else A(f"E{k}")) for k, v in enumerate(ls)]
+                for r_, nm in _NAMES.items():
                     carry[role[r_]] = A(nm)
-                carry[role["conv"]] = conv_in
-                out = I4.call(body4, [tuple(carry)], {})
-            except (EvalError, Raised, KeyError, TypeError, AttributeError, IndexError) as ex:
-                ctx.undecided("O4/T7-steps", rt, None, construct=f"step[{lab}]", detail=str(ex))
+                carry[role["conv"]] = False
+                out, _, _ = flatten(I4.call(r.loop[1], [rb(carry)], {}))
+                if len(out) != nleaves:
+                    raise Incomplete(f"the loop body returns {len(out)} leaves for a carry of {nleaves}")
+            except EVAL_ERRORS + (Incomplete,) as ex:
+                add("O4/T7-steps", None, f"step[{lab}]", str(ex), kind="step")
                 continue
             g = lambda r_: out[role[r_]]
-            Cx, Cd, Co, CF, CD, Cl, Ch = (A(names[k]) for k in ("root", "dx", "dxOld", "F", "DF", "xl", "xh"))
+            Cx, Cd, Co, CF, CD, Cl, Ch = (A(_NAMES[k]) for k in ("root", "dx", "dxOld", "F", "DF", "xl", "xh"))
             v = num
             oor = ((v["Cx"] - v["Ch"]) * v["CD"] - v["CF"]) * ((v["Cx"] - v["Cl"]) * v["CD"] - v["CF"]) > 0
             slow = abs(2 * v["CF"]) > abs(v["Co"] * v["CD"])
@@ -258,111 +298,421 @@ def semantic(ctx, rt):
             else:
                 want_x, want_dx, kind = Cx - CF / CD, Dual(0) - CF / CD, "Newton"
             ok_x = _eqv(I4, g("root"), want_x)
-            ok_dx = _eqv(I4, g("dx"), want_dx) or _eqv(I4, g("dxOld"), want_dx)
-            if conv_in is False:
-                ctx.decide("O4/T7-steps", ok_x and ok_dx, rt, None, construct=f"step[{lab}]",
-                           detail=f"{kind} step: new iterate {repr(I4.num(want_x).a)[:60]}",
-                           bad_detail=f"in the situation [{lab}] ({'Newton leaves the bracket' if oor else 'Newton converges too slowly' if slow else 'Newton is admissible'}) the "
-                                      f"new iterate is `{repr(g('root'))[:70]}` with step `{repr(g('dx'))[:40]}`; expected the {kind} step {repr(I4.num(want_x).a)[:60]}")
-                # bracket maintenance
-                if ok_x:
-                    neg = fnew < 0
-                    okb = (_eqv(I4, g("xl"), want_x) and _eqv(I4, g("xh"), Ch)) if neg else (_eqv(I4, g("xl"), Cl) and _eqv(I4, g("xh"), want_x))
-                    ctx.decide("O3/T6-sign-convention", okb, rt, None, construct=f"bracket-maintenance[{lab}]",
-                               detail=f"f(new) {'<' if neg else '>='} 0 replaces the end where f is {'negative' if neg else 'positive'}",
-                               bad_detail=f"in the situation [{lab}] with f(new) {'<' if neg else '>='} 0 the bracket becomes ({repr(g('xl'))[:30]}, {repr(g('xh'))[:30]}): the end "
-                                          f"with the same sign as f(new) must be replaced (sign conventions of orientation and maintenance disagree)")
-                    # carried values
-                    okc = _eqv(I4, g("F"), A("f@" + repr(__import__("optilint.expr", fromlist=["simplify"]).simplify(I4.num(want_x).a)))) and \
-                        _eqv(I4, g("iter"), A("Ci") + Dual(1))
-                    shift = _eqv(I4, g("dxOld"), Cd) or _eqv(I4, g("dx"), want_dx)
-                    ctx.decide("O5/T5-loop-carry-slots", okc and shift, rt, None, construct=f"carry-order[{lab}]",
-                               detail="residual slot = f(new iterate), counter + 1, previous step kept",
-                               bad_detail=f"in the situation [{lab}] the carry is returned out of order: residual slot {repr(g('F'))[:40]}, counter {repr(g('iter'))[:20]}, "
-                                          f"step-before-last {repr(g('dxOld'))[:30]}")
+            # only the magnitude of the stored step is ever used (tolerance test, slow-convergence test, correction_norm): either sign convention is the same algorithm
+            ok_dx = _eqv(I4, g("dx"), want_dx) or _eqv(I4, g("dx"), Dual(0) - want_dx)
+            why = "Newton leaves the bracket" if oor else "Newton converges too slowly (2|f| > |step before last * f'|)" if slow else "Newton is admissible"
+            add("O4/T7-steps", ok_x and ok_dx, f"step[{lab}]", f"{kind} step: new iterate {_show(I4.num(want_x).a)}",
+                f"in the situation [{lab}] ({why}) the new iterate is `{_show(g('root'), 70)}` with step `{_show(g('dx'), 40)}`; "
+                f"expected the {kind} step {_show(I4.num(want_x).a)} with step {_show(I4.num(want_dx).a, 40)}", kind="step")
+            if ok_x:
+                neg = fnew < 0
+                okb = (_eqv(I4, g("xl"), want_x) and _eqv(I4, g("xh"), Ch)) if neg else (_eqv(I4, g("xl"), Cl) and _eqv(I4, g("xh"), want_x))
+                add("O3/T6-sign-convention", okb, f"bracket-maintenance[{lab}]",
+                    f"f(new) {'<' if neg else '>='} 0 replaces the end where f is {'negative' if neg else 'positive'}",
+                    f"in the situation [{lab}] with f(new) {'<' if neg else '>='} 0 the bracket becomes ({_show(g('xl'), 30)}, {_show(g('xh'), 30)}): the end "
+                    f"with the same sign as f(new) must be replaced (sign conventions of orientation and maintenance disagree)", kind="step")
+                atF, atDF = M.applied_at(I4, g("F"), "f"), M.applied_at(I4, g("DF"), "df")
+                okF = atF is not None and atDF is not None and _eqv(I4, atF, want_x) and _eqv(I4, atDF, want_x)
+                okI = _eqv(I4, g("iter"), A("Ci") + Dual(1))
+                okS = _eqv(I4, g("dxOld"), Cd)
+                add("O5/T5-loop-carry-slots", okF and okI and okS, f"carry-order[{lab}]",
+                    "residual and slope slots = f, f' at the new iterate, counter + 1, last step becomes the step before last",
+                    f"in the situation [{lab}] the carry loses its meaning: residual slot `{_show(g('F'), 40)}`, slope slot `{_show(g('DF'), 40)}` "
+                    f"(expected f and f' at the new iterate), counter `{_show(g('iter'), 20)}` (expected Ci + 1), "
+                    f"step before last `{_show(g('dxOld'), 30)}` (expected the incoming last step Cd)", kind="step")
             # convergence flag
             step_v = ((v["Ch"] - v["Cl"]) / 2) if (oor or slow) else (-v["CF"] / v["CD"])
-            start_v = v["Cl"] if (oor or slow) else v["Cx"]
-            stag = (start_v + step_v == start_v)       # the step no longer changes the iterate: the step functions report convergence
-            want_conv = conv_in or stag or abs(fnew) < env["rtol"] or abs(step_v) < env["xtol"]
-            got_conv = g("conv")
-            if isinstance(got_conv, bool):
-                ctx.decide("O6/T1-result-masked", got_conv == bool(want_conv), rt, None, construct=f"convergence-test[{lab},flag-in={conv_in}]",
-                           detail=f"flag = {bool(want_conv)}: stagnation of the step or |step| < x_tol or |f(new)| < r_tol",
-                           bad_detail=f"in the situation [{lab}] with the flag {'already set' if conv_in else 'not yet set'} the body returns converged = {got_conv}; "
-                                      f"expected {bool(want_conv)} (stagnation reported by the step function | (|dx| < x_tol) | (|F| < r_tol))")
-            else:
-                ctx.undecided("O6/T1-result-masked", rt, None, construct=f"convergence-test[{lab},flag-in={conv_in}]", detail=f"flag is not boolean: {got_conv!r}")
-    # loop guard: continues while not converged and the counter is below max_iters
-    cond = rec.get("cond")
+            stag = (step_v == 0)       # the step no longer changes the iterate: the step functions report convergence
+            want_conv = bool(stag or abs(fnew) < env["rtol"] or abs(step_v) < env["xtol"])
+            got = g("conv")
+            flags[lab] = got if isinstance(got, bool) else None
+            add("O6/T1-result-masked", (got == want_conv) if isinstance(got, bool) else None, f"convergence-test[{lab},flag-in=False]",
+                f"flag = {want_conv}: stagnation of the step or |step| < x_tol or |f(new)| < r_tol",
+                f"in the situation [{lab}] (|step| = {abs(step_v)}, |f(new)| = {abs(fnew)}, x_tol = {env['xtol']}, r_tol = {env['rtol']}) the body returns converged = {got}; "
+                f"expected {want_conv} (stagnation reported by the step | (|step| < x_tol) | (|f(new)| < r_tol))", kind="step")
+        # ---- O5: loop guard
+        try:
+            res = []
+            cases = ((False, F(3)), (True, F(3)), (False, F(M.MAX_ITERS - 1)), (False, F(M.MAX_ITERS)), (False, F(M.MAX_ITERS + 1)))
+            for conv_in, it_ in cases:
+                env = dict(BASE)
+                env.update({"Ci": it_})
+                env.update({f"E{k}": F(1) for k in range(nleaves)})
+                r = self.solver_run(f"guard:{it_}", env)
+                ls, _, rb = flatten(r.loop[2])
+                carry = [(False if isinstance(v, bool) else A(f"E{k}")) for k, v in enumerate(ls)]
+                carry[role["conv"]] = conv_in
+                carry[role["iter"]] = A("Ci")
+                res.append(r.I.truth(r.I.call(r.loop[0], [rb(carry)], {})))
+            want = [True, False, True, False, False]
+            add("O5/T5-loop-carry-slots", res == want, "loop-guard", "continues iff not converged and fewer than max_iters iterations",
+                f"the loop guard evaluates to {res} for (not converged, i=3), (converged, i=3), (not converged, i=max_iters-1), (not converged, i=max_iters), "
+                f"(not converged, i>max_iters) with max_iters = {M.MAX_ITERS} given to get_settings; expected {want}", kind="guard")
+            guard_ok = res == want
+        except EVAL_ERRORS + (Incomplete,) as ex:
+            add("O5/T5-loop-carry-slots", None, "loop-guard", str(ex), kind="guard")
+            guard_ok = None
+        # ---- O4: the tolerances given to get_settings by name reach the tests they are named after
+        a, b, c, d = (flags.get(k) for k in ("step-below-tolerance", "step-below-r_tol-only", "residual-below-tolerance", "residual-below-x_tol-only"))
+        if None in (a, b, c, d):
+            ok = None
+        elif (a, b, c, d) == (True, False, True, False):
+            ok = True
+        elif (a, b, c, d) == (False, True, False, True):
+            ok = False
+        else:
+            ok = None if (a, c) != (True, True) else True      # a convergence test is wrong for another reason (reported by O6)
+        add("O4/T5-settings-wiring", ok, "get_settings(x_tol, r_tol)->step-test,residual-test",
+            "x_tol bounds |step| and r_tol bounds |f| in the loop's convergence test",
+            f"the value passed to get_settings as x_tol is compared with the residual and r_tol with the step: a step below x_tol alone stops the loop: {a}, "
+            f"a step below r_tol alone: {b}, a residual below r_tol alone: {c}, a residual below x_tol alone: {d} (expected True, False, True, False)", kind="settings")
+        return obs
+
+    @staticmethod
+    def split_result(out):
+        if isinstance(out, (tuple, list)) and len(out) == 2:
+            return out[0], out[1]
+        if isinstance(out, Record) and len(out.values) == 2:
+            return out.values[0], out.values[1]
+        raise Incomplete(f"the solver does not return (root, info): {out!r}")
+
+
+def analyse(ctx, fr):
     try:
-        res = []
-        for conv_in, it_ in ((False, F(3)), (True, F(3)), (False, F(50)), (False, F(51))):
-            env = dict(base)
-            env.update({"Ci": it_})
-            _, rec5, I5 = M.run(env, "init")
-            I5.policy = M.interp(env)[0].policy
-            carry = [A(f"C{k}") for k in range(len(init))]
-            carry[role["conv"]] = conv_in
-            carry[role["iter"]] = A("Ci")
-            res.append(I5.truth(I5.call(rec5["cond"], [tuple(carry)], {})))
-        ctx.decide("O5/T5-loop-carry-slots", res == [True, False, False, False], rt, None, construct="loop-guard",
-                   detail="continues iff not converged and fewer than max_iters iterations",
-                   bad_detail=f"loop guard evaluates to {res} for (not converged, i=3), (converged, i=3), (not converged, i=max), (not converged, i>max); expected [True, False, False, False]")
-    except (EvalError, Raised, KeyError, TypeError, AttributeError, IndexError) as ex:
-        ctx.undecided("O5/T5-loop-carry-slots", rt, None, construct="loop-guard", detail=str(ex))
+        return _analyse(ctx, fr)
+    except EVAL_ERRORS as ex:
+        raise Incomplete(f"find_root cannot be interpreted: {type(ex).__name__}: {ex}")
 
 
-def o7(ctx):
+def _analyse(ctx, fr):
+    M = RootModel(ctx, SR)
+    An = _Analysis(ctx, M)
+    base_run = An.solver_run("base", dict(BASE))
+    rt = _report_scope(ctx, base_run, fr)
+    wiring(ctx, M, fr, base_run)
+    settings_fields(ctx, M, base_run)
+    readings, missing, cand, leaves = An.readings(base_run)
+    if not readings:
+        ctx.undecided("O5/T5-loop-carry-slots", rt, None, construct="carry-initial-and-result",
+                      detail=f"the while-loop carry {[_show(v, 24) for v in leaves]} has no leaf that can play the role(s) "
+                             f"{[ROLE_TEXT[r] for r in ROLES if not cand[r]]}: this design of the iteration is not recognised")
+        return
+    best = None
+    for role in readings:
+        obs = An.evaluate(role, base_run)
+        nbad = sum(1 for o in obs if o[1] is False)
+        nund = sum(1 for o in obs if o[1] is None)
+        if best is None or (nbad, nund) < best[0]:
+            best = ((nbad, nund), role, obs)
+        if nbad == 0 and nund == 0:
+            break
+    (nbad, nund), role, obs = best
+    if An.truncated and nbad:
+        ctx.undecided("O5/T5-loop-carry-slots", rt, None, construct="carry-initial-and-result",
+                      detail=f"the while-loop carry {[_show(v, 24) for v in leaves]} can be read in too many ways; none of the {len(readings)} readings tried satisfies the contract")
+        return
+    if missing:
+        # roles that the initial values did not identify were guessed: only a loop body that behaves exactly as specified under the
+        # guessed reading confirms it (then the wrong initial value is a derived fact); otherwise the layout is not understood
+        body_ok = all(o[1] is True for o in obs if o[5] in ("step", "guard"))
+        if not body_ok:
+            ctx.undecided("O5/T5-loop-carry-slots", rt, None, construct="carry-initial-and-result",
+                          detail=f"the initial while-loop carry {[_show(v, 24) for v in leaves]} does not identify the {[ROLE_TEXT[r] for r in missing]} "
+                                 f"and no reading of the carry is confirmed by the loop body: this design of the iteration is not recognised")
+            return
+    for rule, ok, construct, detail, bad, kind in obs:
+        ctx.decide(rule, ok, rt, None, construct=construct, detail=detail, bad_detail=bad)
+    # every repo function the interpretation went through counts as analysed (the thorough tier alpha-renames each of them)
+    for r in An.cache.values():
+        for q in sorted(r.I.visited):
+            sc = ctx.repo.find(q)
+            if sc is not None and "<" not in q:
+                ctx.touch(sc)
+
+
+def _report_scope(ctx, run, fr):
+    """Obligations are reported at the function that owns the iteration (the one find_root's solver ends up in); every repo function
+    the interpretation went through counts as analysed (the thorough tier alpha-renames each of them)."""
+    rt = None
+    for q in sorted(run.I.visited):
+        s = ctx.repo.find(q)
+        if s is not None and "<" not in q:
+            ctx.touch(s)
+    for cl in run.loop[:2]:
+        sc = getattr(cl, "scope", None)
+        while sc is not None and sc.kind != "module":
+            if sc.kind == "function" and sc.parent is not None and sc.parent.kind == "module":
+                rt = rt or sc
+            sc = sc.parent
+    named = ctx.repo.find(f"{SR}:rtsafe_")
+    if named is not None and named.qualname in run.I.visited:
+        rt = named
+    if rt is not None:
+        ctx.touch(rt)
+    return rt or fr
+
+
+# ------------------------------------------------------------------ O7: what find_root hands to custom_root
+
+def wiring(ctx, M, fr, run):
     rule = "O7/T5-custom-root-wiring"
-    fr = ctx.need(f"{SR}:find_root")
-    f, x0, br, st = fr.params()
-    r = fr.returns()
-    ok = False
-    shown = src(r[0]) if r else "?"
-    if r and isinstance(r[0], ast.Call) and (dotted(r[0].func) or "").endswith("custom_root") and len(r[0].args) >= 4:
-        from .common import defs_to_lambdas, normalize
-        a = [defs_to_lambdas(x, fr) for x in r[0].args]
-        solve, tsolve = a[2], a[3]
-        if isinstance(solve, ast.Lambda):
-            solve = ast.Lambda(args=solve.args, body=normalize(solve.body, fr, depth=0))
-        ok_f = same(a[0], f) and same(a[1], x0)
-        ok_s = isinstance(solve, ast.Lambda) and len(solve.args.args) == 2 and \
-            same(solve.body, f"rtsafe_({solve.args.args[0].arg}, {solve.args.args[1].arg}, {br}, {st})")
-        ok_t = isinstance(tsolve, ast.Lambda) and len(tsolve.args.args) == 2
-        if ok_t:
-            g, y = tsolve.args.args[0].arg, tsolve.args.args[1].arg
-            A = Algebra()
-            try:
-                ok_t = A.equal(A.lower(tsolve.body), A.lower(ast.parse(f"{y}/{g}(1.0)", mode="eval").body))
-            except NotPolynomial:
+    construct = "custom_root(f, x0, rtsafe_, y/g(1))"
+    cr, I = run.custom_root, run.I
+    facts = []
+    try:
+        ok_f = _eqv(I, I.call(cr["f"], [A("t")], {}), A("fo@t"))
+        facts.append(f"the residual handed over is the user function: {ok_f}")
+        ok_x = _eqv(I, cr["initial_guess"], A("x0o"))
+        facts.append(f"the initial guess is find_root's x0: {ok_x}")
+        aux = cr["has_aux"] is True
+        pair = isinstance(run.out, (tuple, list, Record)) and len(run.out.values if isinstance(run.out, Record) else run.out) == 2
+        facts.append(f"has_aux={cr['has_aux']} and the solver returns (root, info): {pair}")
+        # the solver must work on the function and the guess custom_root passes in (custom_root re-linearises with them)
+        seen = set()
+        for v in flatten(run.loop[2])[0] + flatten(run.out)[0]:
+            if isinstance(v, Dual):
+                seen |= set(v.a.atoms())
+        foreign = sorted(a for a in seen if a == "x0o" or a.startswith(("fo@", "dfo@")))
+        ok_s = not foreign
+        facts.append("the solver depends only on its own arguments" if ok_s else
+                     f"the solver called on (F, X0) iterates on find_root's own {'guess' if 'x0o' in foreign else 'function'} ({', '.join(foreign)[:60]})")
+    except EVAL_ERRORS as ex:
+        ctx.undecided(rule, fr, None, construct=construct, detail=f"cannot interpret what find_root hands to custom_root: {ex}")
+        return
+    # tangent solve: y / g(1) for a linear g of either sign
+    ok_t, shown = True, ""
+    try:
+        for slope in (F(2), F(-3)):
+            It = M.interp({"G": slope, "y": F(5)})
+            g = PyFunc("g", lambda it, a, k: it.num(a[0]) * A("G"))
+            res = It.call(cr["tangent_solve"], [g, A("y")], {})
+            if not _eqv(It, res, A("y") / A("G")):
                 ok_t = False
-        aux = any(k.arg == "has_aux" and isinstance(k.value, ast.Constant) and k.value.value is True for k in r[0].keywords)
-        ok = ok_f and ok_s and ok_t and aux
-        shown = f"f/x0 ok={ok_f}, solver ok={ok_s}, tangent solve y/g(1) ok={ok_t}, has_aux={aux}"
-    ctx.decide(rule, ok, fr, r[0] if r else None, construct="custom_root(f, x0, rtsafe_, y/g(1))", detail=shown,
-               bad_detail=f"find_root is not custom_root(f, x0, lambda F, X0: rtsafe_(F, X0, bracket, settings), lambda g, y: y/g(1.0), has_aux=True): {shown}")
+                shown = f"for a linearised residual g(t) = G*t with G = {slope} the tangent solve returns `{_show(res, 50)}` instead of y/G"
+                break
+        facts.append(f"tangent solve is y/g(1) for both signs of the slope: {ok_t}" + (f" ({shown})" if shown else ""))
+    except EVAL_ERRORS as ex:
+        ctx.undecided(rule, fr, None, construct=construct, detail=f"cannot interpret the tangent solve: {ex}")
+        return
+    ok = ok_f and ok_x and aux and pair and ok_s and ok_t
+    ctx.decide(rule, bool(ok), fr, None, construct=construct, detail="; ".join(facts),
+               bad_detail="find_root does not hand (user function, guess, solver of its own arguments, y/g(1), has_aux=True) to custom_root: " + "; ".join(facts))
+
+
+# ------------------------------------------------------------------ O4: settings factory
+
+def settings_fields(ctx, M, run):
+    """get_settings(max_iters=, x_tol=, r_tol=): every parameter that has a field of the same name in the returned record must be in it
+    (the fields are read by name by every user of the settings)."""
+    rule = "O4/T5-settings-wiring"
+    gs = ctx.need(f"{SR}:get_settings")
+    st = run.settings
+    given = {"max_iters": F(M.MAX_ITERS), "x_tol": A("xtol"), "r_tol": A("rtol")}
+    if not isinstance(st, Record):
+        return      # not a record: only the end-to-end obligation (tolerances reach their tests) applies
+    bad, n = [], 0
+    for p, v in given.items():
+        if p in st.fields:
+            n += 1
+            got = st.get(p)
+            if not (got is not None and not isinstance(got, bool) and _eqv(run.I, got, v)):
+                src = [q for q, w in given.items() if got is not None and not isinstance(got, bool) and _eqv(run.I, got, w)]
+                bad.append(f"field `{p}` holds " + (f"parameter `{src[0]}`" if src else f"`{_show(got, 30)}`"))
+    if n:
+        ctx.decide(rule, not bad, gs, None, construct=f"get_settings->{st.tname}:parameters-to-same-named-fields",
+                   detail=f"{n} parameters reach the field of the same name",
+                   bad_detail=f"ScalarRootFind.get_settings builds {st.tname} with " + ", ".join(bad) + ": settings are exchanged silently (all readers use the field names)")
+
+
+# ------------------------------------------------------------------ self-test corpus
+
+_NT_CARRY = '''
+    def cond(state):
+        return (~state.done) & (state.k < max_iters)
+
+    def loop_body(state):
+        outOfRange = ((state.x - state.hi)*state.slope - state.res) * ((state.x - state.lo)*state.slope - state.res) > 0
+        tooSlow = np.abs(2.*state.res) > np.abs(state.prev*state.slope)
+        x, step, done = jax.lax.cond(outOfRange | tooSlow, bisection_step, newton_step,
+                                     state.x, state.lo, state.hi, state.slope, state.res)
+        res, slope = f_and_fprime(x)
+        lo = np.where(res < 0, x, state.lo)
+        hi = np.where(res < 0, state.hi, x)
+        done = done | (np.abs(step) < x_tol) | (np.abs(res) < r_tol)
+        return state._replace(x=x, last=step, prev=state.last, res=res, slope=slope, lo=lo, hi=hi, done=done, k=state.k + 1)
+
+    _State = namedtuple('_State', ['k', 'done', 'lo', 'hi', 'x', 'res', 'slope', 'prev', 'last'])
+    final = jax.lax.while_loop(cond, loop_body, _State(k=0, done=converged, lo=xl, hi=xh, x=x0, res=F, slope=DF, prev=dxOld, last=dx))
+    x, dx, F, converged, iters = final.x, final.last, final.res, final.done, final.k
+'''
+
+
+def _vectorised_preparation(src):
+    a, b = src.find("    fl = f(bracket[0])\n"), src.find("    # ORIENT THE SEARCH")
+    if a < 0 or b < a or src.count("    converged = False\n\n") != 1:
+        return None
+    new = ("    ends = np.asarray(bracket)\n    fEnds = jax.vmap(f)(ends)\n    fl, fh = fEnds\n    functionCalls = 2\n"
+           "    jax.debug.print('bracket values {}', fEnds)\n    with jax.named_scope('prepare_guess'):\n        endIsRoot = fEnds == 0.0\n"
+           "        x0 = np.select([endIsRoot[1], endIsRoot[0], np.prod(fEnds) < 0.0],\n"
+           "                       [ends[1], ends[0], np.clip(x0, ends[0], ends[1])], np.nan)\n        converged = np.any(endIsRoot)\n\n")
+    return (src[:a] + new + src[b:]).replace("    converged = False\n\n", "")
+
+
+def _replace_loop(new_block):
+    """swap the nested cond / loop_body / while_loop call of rtsafe_ for `new_block` (a test input, not a rule)"""
+    def f(src):
+        a = src.find("    def cond(carry):")
+        b = src.find("    x = np.where(converged, x, np.nan)")
+        if a < 0 or b < 0 or b < a:
+            return None
+        return src[:a] + new_block.lstrip("\n") + "\n" + src[b:]
+    return f
 
 
 def variants(repo):
-    from optilint.selftest import Variant, sub, sub_in_func, alpha_rename, reformat
+    from optilint.selftest import Variant, sub, sub_in_func, reformat
     S = "optimism/ScalarRootFind.py"
+    RET = "        return root, dx, dxOld, F, DF, xl, xh, converged, i"
+    chain = lambda *fs: (lambda s: _chain(s, fs))
     return [
-        Variant("settings tolerances swapped", "optimism/ScalarRootFind.py", sub("    return Settings(max_iters, x_tol, r_tol)", "    return Settings(max_iters, r_tol, x_tol)"), "O4/T5-settings-wiring"),
+        # ---- breaking
+        Variant("settings tolerances swapped", S, sub("    return Settings(max_iters, x_tol, r_tol)", "    return Settings(max_iters, r_tol, x_tol)"), "O4/T5-settings-wiring"),
+        Variant("settings fields reordered, positional factory", S, sub("['max_iters', 'x_tol', 'r_tol']", "['max_iters', 'r_tol', 'x_tol']"), "O4/T5-settings-wiring"),
+        Variant("tolerances read from the wrong field", S, chain(sub("    x_tol = settings.x_tol\n", "    x_tol = settings.r_tol\n"), sub("    r_tol = settings.r_tol\n", "    r_tol = settings.x_tol\n")),
+                "O4/T5-settings-wiring"),
         Variant("NaN seeding after overrides", S,
                 lambda s: None if s.count("    x0 = np.where(fl*fh < 0.0,\n                  x0,\n                  np.nan)\n") != 1 else
                 s.replace("    x0 = np.where(fl*fh < 0.0,\n                  x0,\n                  np.nan)\n", "")
                  .replace("    # ORIENT THE SEARCH SO THAT F(XL) < 0.", "    x0 = np.where(fl*fh < 0.0,\n                  x0,\n                  np.nan)\n    # ORIENT THE SEARCH SO THAT F(XL) < 0."),
                 "O1-O2/T5-endpoint-pairing"),
         Variant("no clip", S, sub("    x0 = np.clip(x0, bracket[0], bracket[1])\n", ""), "O1-O2/T2-guess-preparation-order"),
+        Variant("clip to the wrong end", S, sub("    x0 = np.clip(x0, bracket[0], bracket[1])\n", "    x0 = np.clip(x0, bracket[0], bracket[0])\n"),
+                "O1-O2/T2-guess-preparation-order"),
+        Variant("sign-change test inverted", S, sub("    x0 = np.where(fl*fh < 0.0,", "    x0 = np.where(fl*fh > 0.0,"), "O1-O2/T2-guess-preparation-order"),
         Variant("endpoint pairing swapped", S, sub("    x0 = np.where(leftBracketIsSolution, bracket[0], x0)", "    x0 = np.where(leftBracketIsSolution, bracket[1], x0)"), "O1-O2/T5-endpoint-pairing"),
+        Variant("end-point root not flagged converged", S, sub("    converged = np.where(rightBracketIsSolution, True, converged)\n", ""), "O1-O2/T5-endpoint-pairing"),
         Variant("maintenance flipped", S, sub("lambda rt, lo, hi: (rt, hi),\n                             lambda rt, lo, hi: (lo, rt),", "lambda rt, lo, hi: (lo, rt),\n                             lambda rt, lo, hi: (rt, hi),"), "O3/T6-sign-convention"),
         Variant("orientation flipped", S, sub("    xl, xh = jax.lax.cond(fl < 0,", "    xl, xh = jax.lax.cond(fl > 0,"), "O3/T6-sign-convention"),
         Variant("bisection not midpoint", S, sub_in_func("bisection_step", "    dx = 0.5*(xh - xl)", "    dx = 0.25*(xh - xl)"), "O4/T7-steps"),
+        Variant("bisection from the wrong end", S, sub_in_func("bisection_step", "    x = xl + dx", "    x = xh + dx"), "O4/T7-steps"),
+        Variant("bisection half width by magnitude", S, sub_in_func("bisection_step", "    dx = 0.5*(xh - xl)", "    dx = 0.5*np.abs(xh - xl)"), "O4/T7-steps"),
         Variant("newton sign", S, sub_in_func("newton_step", "    dx = -f/df", "    dx = f/df"), "O4/T7-steps"),
-        Variant("carry order", S, sub_in_func("rtsafe_", "        return root, dx, dxOld, F, DF, xl, xh, converged, i", "        return root, dxOld, dx, F, DF, xl, xh, converged, i"), "O5/T5-loop-carry-slots"),
+        Variant("branches of the step choice swapped", S, sub("                                           bisection_step,\n                                           newton_step,",
+                                                            "                                           newton_step,\n                                           bisection_step,"), "O4/T7-steps"),
+        Variant("slow-convergence test reads the last step", S, sub("np.abs(dxOld*DF)", "np.abs(dx*DF)"), "O4/T7-steps"),
+        Variant("out-of-range test dropped", S, sub("jax.lax.cond(newtonOutOfRange | newtonDecreasingSlowly,", "jax.lax.cond(newtonDecreasingSlowly,"), "O4/T7-steps"),
+        Variant("carry order", S, sub_in_func("rtsafe_", RET, "        return root, dxOld, dx, F, DF, xl, xh, converged, i"), "O5/T5-loop-carry-slots"),
+        Variant("step before last never updated", S, sub("        dxOld = dx\n", ""), "O5/T5-loop-carry-slots"),
+        Variant("residual and slope slots exchanged", S, sub_in_func("rtsafe_", RET, "        return root, dx, dxOld, DF, F, xl, xh, converged, i"), "O5/T5-loop-carry-slots"),
+        Variant("initial residual at the wrong point", S, sub("    F, DF = f_and_fprime(x0)\n", "    F, DF = f_and_fprime(bracket[0])\n"), "O5/T5-loop-carry-slots"),
+        Variant("loop guard off by one", S, sub("(i < max_iters)", "(i <= max_iters)"), "O5/T5-loop-carry-slots"),
+        Variant("loop guard ignores the flag", S, sub("        keepLooping = (~converged) & (i < max_iters)", "        keepLooping = (i < max_iters)"), "O5/T5-loop-carry-slots"),
         Variant("unmasked result", S, sub("    x = np.where(converged, x, np.nan)\n", ""), "O6/T1-result-masked"),
+        Variant("mask inverted", S, sub("    x = np.where(converged, x, np.nan)\n", "    x = np.where(converged, np.nan, x)\n"), "O6/T1-result-masked"),
+        Variant("stagnation flag dropped", S, sub("        converged = converged | (np.abs(dx) < x_tol) | (np.abs(F) < r_tol)", "        converged = (np.abs(dx) < x_tol) | (np.abs(F) < r_tol)"),
+                "O6/T1-result-masked"),
+        Variant("residual test dropped", S, sub("        converged = converged | (np.abs(dx) < x_tol) | (np.abs(F) < r_tol)", "        converged = converged | (np.abs(dx) < x_tol)"), "O6/T1-result-masked"),
+        Variant("convergence needs both tolerances", S, sub("(np.abs(dx) < x_tol) | (np.abs(F) < r_tol)", "(np.abs(dx) < x_tol) & (np.abs(F) < r_tol)"), "O6/T1-result-masked"),
         Variant("tangent solve", S, sub("lambda g, y: y/g(1.0)", "lambda g, y: y*g(1.0)"), "O7/T5-custom-root-wiring"),
+        Variant("tangent solve clamps the slope", S, sub("lambda g, y: y/g(1.0)", "lambda g, y: y/np.maximum(g(1.0), np.finfo(float).eps)"), "O7/T5-custom-root-wiring"),
+        Variant("tangent solve by magnitude", S, sub("lambda g, y: y/g(1.0)", "lambda g, y: y/np.abs(g(1.0))"), "O7/T5-custom-root-wiring"),
         Variant("solver ignores clipped bracket", S, sub("lambda F, X0: rtsafe_(F, X0, bracket, settings)", "lambda F, X0: rtsafe_(F, x0, bracket, settings)"), "O7/T5-custom-root-wiring"),
+        Variant("solver iterates on the outer function", S, sub("lambda F, X0: rtsafe_(F, X0, bracket, settings)", "lambda F, X0: rtsafe_(f, X0, bracket, settings)"), "O7/T5-custom-root-wiring"),
+        Variant("aux output dropped", S, sub(", has_aux=True)", ", has_aux=False)"), "O7/T5-custom-root-wiring"),
+        # ---- preserving
         Variant("reformat", S, reformat(), None),
-    ]
+        Variant("carry as a reordered namedtuple with _replace, np.where maintenance", S, _replace_loop(_NT_CARRY), None),
+        Variant("carry as a dict", S, _replace_loop(_DICT_CARRY), None),
+        Variant("nested carry, lambdas, switch, extra slot", S, _replace_loop(_NESTED_CARRY), None),
+        Variant("bracket carried as an array updated with .at[].set", S, _replace_loop(_ARRAY_BRACKET_CARRY), None),
+        Variant("vectorised end-point checks (vmap, select, prod, any, named_scope, debug print)", S, _vectorised_preparation, None),
+        Variant("partial + keyword custom_root + tangent helper with linearity", S,
+                chain(sub("import jax\nimport jax.numpy as np", "import functools\nimport jax\nimport jax.numpy as np"),
+                      sub("    return jax.lax.custom_root(f, x0, lambda F, X0: rtsafe_(F, X0, bracket, settings),\n                               lambda g, y: y/g(1.0), has_aux=True)",
+                          "    solver = functools.partial(rtsafe_, settings=settings, bracket=bracket)\n"
+                          "    return jax.lax.custom_root(f=f, initial_guess=x0, solve=solver, tangent_solve=lambda g, y: 2.0*y/g(2.0), has_aux=True)")), None),
+        Variant("midpoint as average, newton by multiplication with the reciprocal, settings unpacked", S,
+                chain(sub_in_func("bisection_step", "    x = xl + dx", "    x = 0.5*(xl + xh)"),
+                      sub_in_func("newton_step", "    dx = -f/df", "    dx = -(1.0/df)*f"),
+                      sub("    max_iters = settings.max_iters\n    x_tol = settings.x_tol\n    r_tol = settings.r_tol\n", "    max_iters, x_tol, r_tol = settings\n")), None),
+        Variant("preparation by nested where, sign test by signs, orientation by sorting on the sign", S,
+                chain(sub("    x0 = np.where(fl*fh < 0.0,\n                  x0,\n                  np.nan)\n", "    x0 = np.where(np.sign(fl)*np.sign(fh) >= 0.0, np.nan, x0)\n"),
+                      sub("    xl, xh = jax.lax.cond(fl < 0,\n                          lambda b: (b[0], b[1]),\n                          lambda b: (b[1], b[0]),\n                          bracket)\n",
+                          "    xLeft, xRight = bracket\n    leftIsPositive = ~(fl < 0)\n    xl = jax.lax.select(leftIsPositive, xRight, xLeft)\n    xh = jax.lax.select(leftIsPositive, xLeft, xRight)\n")), None),
+        Variant("settings factory through a local and keywords", S, sub("    return Settings(max_iters, x_tol, r_tol)", "    s = Settings(r_tol=r_tol, max_iters=max_iters, x_tol=x_tol)\n    return s"), None),
+        Variant("value and slope evaluated separately", S, sub("    f_and_fprime = jax.value_and_grad(f)\n", "    fprime = jax.grad(f)\n    f_and_fprime = lambda t: (f(t), fprime(t))\n"), None),
+    ] + _corpus_variants(S)
+
+
+def _corpus_variants(S):
+    """whole-module restructurings (rules/C17_corpus.py): each must be silent, each listed one-line break of them must be refuted"""
+    from optilint.selftest import Variant
+    from . import C17_corpus as K
+    applicable = lambda new: (lambda src: new if "def find_root(f, x0, bracket, settings)" in src else None)
+    out = [Variant("restyled module: " + name, S, applicable(text), None) for name, text in K.MODULES.items()]
+    for text, name, old, new, rule in K.MUTATIONS:
+        if text.count(old) == 1:
+            out.append(Variant(name, S, applicable(text.replace(old, new)), rule))
+    return out
+
+
+def _chain(s, fs):
+    for f in fs:
+        s = f(s)
+        if s is None:
+            return None
+    return s
+
+
+_DICT_CARRY = '''
+    def cond(c):
+        return np.logical_and(np.logical_not(c['converged']), c['i'] < max_iters)
+
+    def loop_body(c):
+        root, F, DF, xl, xh = c['root'], c['F'], c['DF'], c['bracket'][0], c['bracket'][1]
+        newtonOutOfRange = ((root - xh)*DF - F) * ((root - xl)*DF - F) > 0
+        newtonDecreasingSlowly = np.abs(2.*F) > np.abs(c['steps'][1]*DF)
+        root, dx, converged = jax.lax.cond(newtonOutOfRange | newtonDecreasingSlowly, bisection_step, newton_step, root, xl, xh, DF, F)
+        F, DF = f_and_fprime(root)
+        bracketNew = jax.lax.cond(F < 0, lambda: (root, xh), lambda: (xl, root))
+        converged = converged | (np.abs(dx) < x_tol) | (np.abs(F) < r_tol)
+        return {**c, 'root': root, 'steps': (dx, c['steps'][0]), 'F': F, 'DF': DF, 'bracket': bracketNew, 'converged': converged, 'i': c['i'] + 1}
+
+    out = jax.lax.while_loop(cond, loop_body, dict(root=x0, steps=(dx, dxOld), F=F, DF=DF, bracket=(xl, xh), converged=converged, i=0))
+    x, dx, F, converged, iters = out['root'], out['steps'][0], out['F'], out['converged'], out['i']
+'''
+
+_ARRAY_BRACKET_CARRY = '''
+    def cond(carry):
+        _, _, (done, n) = carry
+        return ~done & (n < max_iters)
+
+    def loop_body(carry):
+        (root, dx, dxOld, F, DF), ends, (converged, i) = carry
+        xl, xh = ends[0], ends[1]
+        newtonOutOfRange = ((root - xh)*DF - F) * ((root - xl)*DF - F) > 0
+        newtonDecreasingSlowly = np.abs(2.*F) > np.abs(dxOld*DF)
+        root, dxNew, converged = jax.lax.cond(newtonOutOfRange | newtonDecreasingSlowly, bisection_step, newton_step, root, xl, xh, DF, F)
+        F, DF = f_and_fprime(root)
+        ends = np.where(F < 0, ends.at[0].set(root), ends.at[1].set(root))
+        converged = converged | (np.abs(dxNew) < x_tol) | (np.abs(F) < r_tol)
+        return (root, dxNew, dx, F, DF), ends, (converged, i + 1)
+
+    (x, dx, _, F, _), _, (converged, iters) = jax.lax.while_loop(cond, loop_body, ((x0, dx, dxOld, F, DF), np.array([xl, xh]), (converged, 0)))
+'''
+
+_NESTED_CARRY = '''
+    steps = (newton_step, bisection_step)
+
+    def loop_body(carry):
+        (root, F, DF), (dx, dxOld), (xl, xh), converged, i, nBisections = carry
+        useBisection = (((root - xh)*DF - F) * ((root - xl)*DF - F) > 0) | (np.abs(2.*F) > np.abs(dxOld*DF))
+        root, dxNew, converged = jax.lax.switch(useBisection.astype(int), steps, root, xl, xh, DF, F)
+        F, DF = f_and_fprime(root)
+        xl, xh = jax.lax.cond(F >= 0, lambda: (xl, root), lambda: (root, xh))
+        converged = np.logical_or(converged, np.logical_or(np.abs(dxNew) < x_tol, np.abs(F) < r_tol))
+        return (root, F, DF), (dxNew, dx), (xl, xh), converged, i + 1, nBisections + np.where(useBisection, 1, 0)
+
+    (x, F, _), (dx, _), _, converged, iters, _ = jax.lax.while_loop(lambda c: ~c[3] & (c[4] < max_iters), loop_body,
+                                                                   ((x0, F, DF), (dx, dxOld), (xl, xh), converged, 0, 0))
+'''
